@@ -56,7 +56,8 @@ Definition f_dist (pen : float) (w : Z) (p : float) : Z :=
 
 Definition FK (pen : float) : keyops :=
   mkKeyops float PrimFloat.leb PrimFloat.mul (f_dist pen) 1%float
-           (fun p => PrimFloat.eqb p 0) (fun p => PrimFloat.leb 0 p = true).
+           (fun p => PrimFloat.eqb p 0)
+           (fun p => PrimFloat.leb 0 p = true /\ PrimFloat.leb p 1 = true).
 
 (* ---------- Hop.PayloadSize of a cleartext intermediate hop ---------- *)
 
